@@ -6,8 +6,8 @@ import random
 
 class RecSampler:
     """sampler whose content depends on the announced epoch only; exposes data_source"""
-    def __init__(self, n, with_set_epoch=True, salt=0, ds_extra=0):
-        self.n, self.epoch, self.salt = n, 0, salt
+    def __init__(self, n, with_set_epoch=True, salt=0, ds_extra=0, eager=False):
+        self.n, self.epoch, self.salt, self.eager = n, 0, salt, eager
         self.data_source = range(n + ds_extra)      # a sampler may cover only part of its dataset
         self.announced = []
         if with_set_epoch:
@@ -21,6 +21,12 @@ class RecSampler:
         return self.n
 
     def __iter__(self):
+        if self.eager:
+            # like torch's DistributedSampler: the order is fixed when iter() is called, not when the first item is taken
+            return iter([(j * 3 + self.epoch * 5 + self.salt) % self.n if self.n else 0 for j in range(self.n)])
+        return self._lazy()
+
+    def _lazy(self):
         for j in range(self.n):
             yield (j * 3 + self.epoch * 5 + self.salt) % self.n if self.n else 0
 
@@ -86,7 +92,7 @@ def oracle(case, start_epoch=0):
 
 def build(case, **start):
     from kappadata.samplers.interleaved_sampler import InterleavedSampler, InterleavedSamplerConfig
-    main = RecSampler(case["N"], case.get("has_set_epoch", True))
+    main = RecSampler(case["N"], case.get("has_set_epoch", True), eager=case.get("eager", False))
     cfgs = [InterleavedSamplerConfig(sampler=RecSampler(c["len"], False, salt=ci, ds_extra=c.get("extra", 0)),
                                      every_n_epochs=c.get("ene"),
                                      every_n_updates=c.get("enu"), every_n_samples=c.get("ens"), batch_size=c.get("bs"))
@@ -336,6 +342,9 @@ def neighbourhood(seed_case=None, limit=4000, rng=None):
                             for cf in cfg_opts:
                                 cases.append({"N": N, "B": B, "drop_last": DL, "dlb": dlb, kind: v, "configs": cf})
     rng.shuffle(cases)
+    for k, c in enumerate(cases):
+        if k % 3 == 0:
+            c["eager"] = True          # a main sampler whose iter() fixes the epoch's order immediately
     for c in cases[:limit]:
         yield c
 
